@@ -91,21 +91,21 @@ _rt_assume = [
 
 
 def _rt(prop, quick_cases, thorough_cases, minnt, free=True, extra_quick=None):
-    st = [stage('h_runtime', _RT_HX, name='h_runtime(DET)', quick=dict(cases=quick_cases, min_nontrivial=minnt, time_budget=200, case_timeout=60),
+    st = [stage('h_runtime', _RT_HX, name='h_runtime(DET)', quick=dict(cases=quick_cases, min_nontrivial=minnt, time_budget=150, case_timeout=60),
                 thorough=dict(cases=thorough_cases, min_nontrivial=minnt * 10, time_budget=1500, case_timeout=300), env=dict(RSV_FREE=0))]
     if free:
         st.append(stage('h_runtime', _RT_HX, name='h_runtime(FREE)', deterministic=False,
-                        quick=dict(cases=max(200, quick_cases // 8), min_nontrivial=0, time_budget=120, case_timeout=60, workers=8),
+                        quick=dict(cases=max(200, quick_cases // 10), min_nontrivial=0, time_budget=90, case_timeout=60, workers=8),
                         thorough=dict(cases=max(2000, thorough_cases // 8), min_nontrivial=0, time_budget=900, case_timeout=120, workers=8),
                         env=dict(RSV_FREE=1), tag_suffix='+free'))
     return st
 
 
-for _p, _q, _t, _m in (('C01', 6000, 120000, 300), ('C07', 6000, 120000, 300), ('C08', 6000, 120000, 300), ('C09', 6000, 120000, 300),
-                       ('C03', 6000, 120000, 100), ('C04', 6000, 120000, 300), ('C06', 6000, 120000, 300)):
+for _p, _q, _t, _m in (('C01', 5000, 120000, 300), ('C07', 5000, 120000, 300), ('C08', 4000, 120000, 300), ('C09', 4000, 120000, 300),
+                       ('C03', 4000, 120000, 100), ('C04', 4000, 120000, 300), ('C06', 4000, 120000, 300)):
     CHECKS[_p] = dict(stages=_rt(_p, _q, _t, _m), assumptions=_rt_assume)
 CHECKS['C10'] = dict(stages=_rt('C10', 12000, 240000, 300, free=False), assumptions=_rt_assume)
-CHECKS['C20'] = dict(stages=_rt('C20', 6000, 120000, 300), assumptions=_rt_assume + [
+CHECKS['C20'] = dict(stages=_rt('C20', 5000, 120000, 300), assumptions=_rt_assume + [
     'the statistics file is read by an independent reader written from the layout tables in the documentation of log/stats.c',
     'runs stopped by RootsimStop may differ by one record between threads (stats.c: equal counts hold in a correctly completed simulation)'])
 CHECKS['C05']['stages'].append(_rt('C05', 4000, 80000, 100, free=False)[0])
@@ -145,22 +145,22 @@ _e4_assume = _rt_assume + [
 def _e4(prop, quick_cases, thorough_cases, minnt):
     return stage('h_mpi', _E4_HX, name='h_mpi(DET, 1..4 ranks)', variant='core_mpi', postprocess=make_rank_copies,
                  cflags=['-DRSV_E4', '-DGM_E4'], file_cflags={'refexec.c': ['-include', 'e4_refmap.h']},
-                 quick=dict(cases=quick_cases, min_nontrivial=minnt, time_budget=250, case_timeout=90),
+                 quick=dict(cases=quick_cases, min_nontrivial=minnt, time_budget=150, case_timeout=90),
                  thorough=dict(cases=thorough_cases, min_nontrivial=minnt * 10, time_budget=1800, case_timeout=300),
                  env=dict(RSV_FREE=0), tag_suffix='')
 
 
-CHECKS['C02'] = dict(stages=[_e4('C02', 5000, 100000, 200)], assumptions=_e4_assume)
+CHECKS['C02'] = dict(stages=[_e4('C02', 4000, 100000, 200)], assumptions=_e4_assume)
 
 for _p in ('C03', 'C04', 'C06', 'C08', 'C09'):
-    CHECKS[_p]['stages'].append(_e4(_p, 2500, 50000, 50))
+    CHECKS[_p]['stages'].append(_e4(_p, 1600, 50000, 50))
     CHECKS[_p]['assumptions'] = _e4_assume
 
 
 # C11: memory safety / UB rides on every engine (all harness builds are ASan+UBSan with asserts on).  Its own check runs
 # the engines with only the crash / sanitizer / assertion oracle armed (semantic oracles of other properties are counted).
-CHECKS['C11'] = dict(stages=_rt('C11', 5000, 100000, 300) + [
-    _e4('C11', 2000, 40000, 50),
+CHECKS['C11'] = dict(stages=_rt('C11', 3000, 100000, 300) + [
+    _e4('C11', 1200, 40000, 50),
     stage('h_alloc', ['h_alloc.c'], name='h_alloc(64KiB arenas)', quick=dict(cases=16000, min_nontrivial=100, time_budget=100),
           thorough=dict(cases=320000, min_nontrivial=1000, time_budget=900)),
     stage('h_numeric', ['h_numeric.c'], quick=dict(cases=200000, min_nontrivial=1000, time_budget=100),
@@ -202,9 +202,9 @@ def _e4_nd(prop, q, t):
 
 
 for _p in ('C01', 'C06', 'C11', 'C03'):
-    CHECKS[_p]['stages'].append(_rt_nd(_p, 1500, 30000))
+    CHECKS[_p]['stages'].append(_rt_nd(_p, 1000, 30000))
 for _p in ('C02', 'C06', 'C11'):
-    CHECKS[_p]['stages'].append(_e4_nd(_p, 1200, 24000))
+    CHECKS[_p]['stages'].append(_e4_nd(_p, 800, 24000))
 
 
 # thorough tier: wider bounds of the runtime campaign (up to 40 LPs, 12 threads, goals up to ~650 events)
